@@ -20,7 +20,7 @@ PROPS = ['PGA.Props.C16']
 GEN = ['Chars', 'MolQuery']
 OBLIGATIONS = ['PGA.C16.' + t for t in [
     'C16_atoms_conserved', 'C16_components_partition', 'C16_elements_conserved', 'C16_components_connected',
-    'C16_components_closed_partial',
+    'C16_components_closed', 'C16_same_molecule_iff_connected',
     'C16_edit_exact', 'C16_edit_applicable_iff', 'C16_frame_atoms', 'C16_frame_bonds', 'C16_bond_edits_leave_atoms', 'C16_atom_edits_leave_bonds',
     'C16_edit_balance', 'C16_balance', 'C16_unbalanced_rejected', 'C16_read_edits_in_range',
     'C16_one_product_set_per_match', 'C16_run_per_match', 'C16_balance_run', 'C16_product_sets_eq_embeddings_partial',
@@ -65,10 +65,8 @@ LEVEL_TEXT = ('Lean 4 theorems for every rule tree, every molecule graph and eve
               'generated rule x molecule pairs. A proof is the right level: the quantifier is over all rules, molecules and matches.')
 LEVEL_NOTE = ('Trusted: Lean kernel; RDKit as graph provider, candidate enumerator and for the probed edge behaviour of RWMol; the parser '
               '(tree taken from the real parser). Partial: the count of product sets equals the count of embeddings under C08\'s guard '
-              '"no * suffix" and below the 10 000-candidate cap; that every product molecule is connected is proved, that two bonded atoms '
-              'never end in different product molecules is proved for products on which the model\'s labelling has reached its fixed point '
-              '(a decidable flag the driver reports for every product and the harness insists on; the full statement is kept as '
-              'C16_components_closed_full) and is otherwise carried by the comparison with GetMolFrags on every product.')
+              '"no * suffix" and below the 10 000-candidate cap. That the product molecules are exactly the connected components of the '
+              'edited graph is proved of the model and compared with GetMolFrags on every product.')
 
 BT_NAMES = ['single', 'double', 'triple', 'quadruple', 'quintuple', 'aromatic', 'zero', 'dative', 'other']
 _state = {}
